@@ -1,7 +1,9 @@
 /-
   Driver.Config — line protocol of the `config` sub-harness (C15).
 
-    scenario := ["CF"] opt* ("IN" opt*)* "|" path*
+    scenario := ["CF" | "OA" n (pathhex node)^n] opt* ("IN" opt*)* "|" path*
+                 `OA` = the process command line holds these n `--app.config=path=value` arguments: the output of the
+                 default ArgsLoader(os.Args) every new App starts with (`St.appCmd`)
                  `IN` = "Initialize now": the options before the first `IN` (all of them when there is none) are the
                  arguments of `app.NewApp().Run(…)`, which initialises; every later batch is applied to the SAME live App
                  (`opt(app)`) and followed by `app.Initialize()`.  A leading `CF` = the same on a bare
@@ -198,16 +200,27 @@ def runBatches (paths : List Bytes) : St → List (List Opt) → List String
     | .error false => ["err"]
     | .ok s' => joinWith " " (paths.map (query s'.acc)) :: runBatches paths s' rest
 
+/-- the leading `OA n (pathhex node)^n`: the command line of the process; none = no such prefix / malformed -/
+def pCmdline (fuel : Nat) : Toks → Option (List (Path × Cfg) × Toks)
+  | "OA" :: n :: r => match n.toNat? with
+    | some k => pPairs fuel k r
+    | none => none
+  | _ => none
+
 def handle (line : String) : String :=
   let toks0 := line.splitOn " "
   let bare := toks0.head? = some "CF"
-  let toks := if bare then toks0.drop 1 else toks0
-  let fuel := 2 * toks.length + 4
-  match pOpts fuel 1 [] toks with
+  let cmd := toks0.head? = some "OA"
+  let fuel0 := 2 * toks0.length + 4
+  match (if cmd then pCmdline fuel0 toks0 else some ([], if bare then toks0.drop 1 else toks0)) with
   | none => "bad-line"
-  | some (items, pathToks) =>
-    match pathToks.mapM fromHex with
+  | some (pairs, toks) =>
+    let fuel := 2 * toks.length + 4
+    match pOpts fuel 1 [] toks with
     | none => "bad-line"
-    | some paths => joinWith " / " (runBatches paths (if bare then St.bare else St.app) (batches items))
+    | some (items, pathToks) =>
+      match pathToks.mapM fromHex with
+      | none => "bad-line"
+      | some paths => joinWith " / " (runBatches paths (if bare then St.bare else St.appCmd pairs) (batches items))
 
 end Driver.Config
